@@ -77,24 +77,35 @@ def run_window(ctx, P):
     _, _, Candle, CandleManager, _ = lib()
     n, tf, life = P["n"], P["tf"], P["life"]
     cs, ts = mk_candles_symtime(ctx, n, lo=86400, hi=86400 * 400)
-    for chunks in ([1] * n, [2] * (n // 2) + [1] * (n % 2), [n]):
-        lab = f"[chunks={'+'.join(map(str, chunks))}]"
+    for chunks in ([1] * n, [2] * (n // 2) + [1] * (n % 2), [n], [1, n - 1], "construct"):
+        lab = f"[chunks={'+'.join(map(str, chunks)) if chunks != 'construct' else 'construct'}]"
         src = clone(cs)
-        m = CandleManager([], candles_lifespan=timedelta(seconds=life), timeframe=tf)
-        pos = 0
+        if chunks == "construct":
+            m = CandleManager(src, candles_lifespan=timedelta(seconds=life), timeframe=tf)
+            chunks = []
+            pos = n
+            got = None
+        else:
+            m = CandleManager([], candles_lifespan=timedelta(seconds=life), timeframe=tf)
+            pos = 0
+        if not chunks:
+            chunks = [0]
         for c in chunks:
-            part = src[pos:pos + c]
-            m.append(part if c > 1 else part[0])
-            pos += c
+            if c:
+                part = src[pos:pos + c]
+                m.append(part if c > 1 else part[0])
+                pos += c
             if tf:
-                full = [b["ts"] for b in ref_resample(ctx, cs[:pos], ts[:pos], tf_secs(tf))]
+                buckets = ref_resample(ctx, cs[:pos], ts[:pos], tf_secs(tf))
+                full = [dict(ts=b["ts"], open=b["open"], high=b["high"], low=b["low"], close=b["close"], volume=b["volume"]) for b in buckets]
             else:
-                full = list(ts[:pos])
-            newest = full[-1]
-            # candles dropped by earlier appends stay dropped: the expected window is a suffix of the stream so far
-            exp = [t for t in full if bool(t >= newest - life)]
-            got = [ctx.sec_of(c2.timestamp) for c2 in m.candles]
-            if chunks == [1] * n and pos == n:
+                full = [dict(ts=t, open=c2.open, high=c2.high, low=c2.low, close=c2.close, volume=c2.volume) for c2, t in zip(cs[:pos], ts[:pos])]
+            newest = full[-1]["ts"]
+            # candles dropped by earlier appends stay dropped: the expected window is a suffix of the stream so far,
+            # and every retained collapsed candle is still the COMPLETE bucket (all six fields)
+            exp = [f for f in full if bool(f["ts"] >= newest - life)]
+            got = [dict(ts=ctx.sec_of(c2.timestamp), open=c2.open, high=c2.high, low=c2.low, close=c2.close, volume=c2.volume) for c2 in m.candles]
+            if lab == "[chunks=" + "+".join(["1"] * n) + "]" and pos == n:
                 ctx.observe("retained", got)
             if ctx.require("retained-count" + lab, len(got) == len(exp), f"after {pos} candles: kept {len(got)}, window holds {len(exp)}"):
                 ctx.equal("retained==window" + lab, got, exp)
